@@ -33,9 +33,9 @@ BUDGET = {
     'thorough': dict(examples=2000, time_s=3300, shrink=True, shrink_cap_s=240),
 }
 
-SAMPLE_KINDS = ['ok_mef', 'ok_rfi', 'ok_float', 'missing', 'small', 'gf_neg', 'gf_big', 'bad_units', 'beads_failed',
+SAMPLE_KINDS = ['ok_mef', 'ok_rfi', 'ok_float', 'ok_float2', 'missing', 'small', 'gf_neg', 'gf_big', 'bad_units', 'beads_failed',
                 'no_curve', 'other_instrument', 'other_amp', 'other_volt']
-HEALTHY = ('ok_mef', 'ok_rfi', 'ok_float')
+HEALTHY = ('ok_mef', 'ok_rfi', 'ok_float', 'ok_float2')
 BEAD_KINDS = ['ok', 'missing', 'small', 'gf_neg', 'gf_big', 'unequal_mef']
 
 _FIX = {}
@@ -54,7 +54,8 @@ def fixture(seed):
     files = {
         'cells_a.fcs': dict(kind='cells', instrument='I1', seed=seed + 1, n=600, datatype='I'),
         'cells_b.fcs': dict(kind='cells', instrument='I1', seed=seed + 2, n=520, datatype='I'),
-        'cells_f.fcs': dict(kind='cells', instrument='I1', seed=seed + 3, n=560, datatype='F'),
+        'cells_f.fcs': dict(kind='cells', instrument='I1', seed=2 * seed + 3, n=560, datatype='F'),
+        'cells_f2.fcs': dict(kind='cells', instrument='I1', seed=2 * seed + 41, n=610, datatype='F'),
         'cells_small.fcs': dict(kind='cells', instrument='I1', seed=seed + 4, n=380, datatype='I'),
         'cells_volt.fcs': dict(kind='cells', instrument='I1', seed=seed + 5, n=500, datatype='I', volt=[500, 550, 999, 650]),
         'cells_lin.fcs': dict(kind='cells', instrument='I1', seed=seed + 6, n=500, datatype='I', amp='lin'),
@@ -82,6 +83,8 @@ def sample_row(kind, sid):
         r.update(file='cells_b.fcs', units={'FL1-H': 'rfi', 'FL2-H': 'Channel'}, gate_fraction=0.85)
     elif kind == 'ok_float':
         r.update(file='cells_f.fcs', units={'FL1-H': 'a.u.'}, beads=None)
+    elif kind == 'ok_float2':
+        r.update(file='cells_f2.fcs', units={'FL1-H': 'RFI', 'FL2-H': 'au'}, beads=None, gate_fraction=0.3)
     elif kind == 'missing':
         r.update(file='no_such_file.fcs')
     elif kind == 'small':
